@@ -8,4 +8,5 @@ for p in $(python3 -c "import json; print(' '.join(sorted(json.load(open('props.
   tail -1 /tmp/runall_$p.out | cut -c1-200
   if [ $rc -ne 0 ]; then fail=1; echo "  ^^ exit $rc"; fi
 done
+python3 /verif/vx/losthints.py | tail -3 || fail=1
 exit $fail
